@@ -327,7 +327,7 @@ fn main() {
     let replay = load_replay(&mut ctx);
     canaries();
     let mut rep = Report::new();
-    let cfg = GenCfg { comment_chance: (1, 4), max_params: 3, ..GenCfg::default() };
+    let cfg = GenCfg { comment_chance: (1, 4), max_params: 3, empty_comments: true, ..GenCfg::default() }; // an empty comment is a comment: the entry stays
     let dcfg = GenCfg { comment_chance: (1, 4), comments: maps::CommentClass::Plain, ..GenCfg::default() };
     let n = ctx.tier.pick(50_000, 1_000_000);
     run_cases(&ctx, &replay, &mut rep, "remove_dummy", n, |rng, rep, i| match i % 3 { 0 => remove_case::<2>(rng, rep, &cfg), 1 => remove_case::<3>(rng, rep, &cfg), _ => remove_case::<4>(rng, rep, &cfg) });
